@@ -10,7 +10,8 @@ Definition vlen9 {A} (l : list A) : val := VN (N.of_nat (List.length l)).
 
 Definition d_env (v : val) : env :=
   match v with
-  | VL [v1; v2; v3; q] => {| n_v1 := d_verdict v1; n_v2 := d_verdict v2; n_v3 := d_verdict v3; n_q := d_q q |}
+  | VL [v1; v2; v3; q; vt] =>
+      {| n_v1 := d_verdict v1; n_v2 := d_verdict v2; n_v3 := d_verdict v3; n_q := d_q q; n_tls := d_verdict vt |}
   | _ => env_default
   end.
 
@@ -26,19 +27,20 @@ Definition e_result (r : list item * list out * sfin) : val :=
   let '(its, os, f) := r in
   VL [VL (map e_out os); e_sfin f; VL (map e_item its)].
 
-(* c09_run [max_size () | (n); banner verdict; [env...]; recv_buffer; [chunk...]] *)
+(* c09_run [max_size () | (n); context given?; banner verdict; [env...]; recv_buffer; [chunk...]]
+   env = [v1; v2; v3; queue result; STARTTLS hook verdict] *)
 Definition e_run_stream (v : val) : val :=
   match v with
-  | VL [mx; vb; VL envs; VB buf; VL chunks] =>
-      e_result (run_server_stream (d_optN mx) (d_verdict vb) (map d_env envs) buf (map get_b chunks))
+  | VL [mx; ctx; vb; VL envs; VB buf; VL chunks] =>
+      e_result (run_server_stream (d_optN mx) (get_bool ctx) (d_verdict vb) (map d_env envs) buf (map get_b chunks))
   | _ => verr
   end.
 
-(* c09_run_batch [max_size; banner verdict; [env...]; stream] *)
+(* c09_run_batch [max_size; context given?; banner verdict; [env...]; stream] *)
 Definition e_run_batch (v : val) : val :=
   match v with
-  | VL [mx; vb; VL envs; VB stream] =>
-      e_result (run_server_batch (d_optN mx) (d_verdict vb) (map d_env envs) stream)
+  | VL [mx; ctx; vb; VL envs; VB stream] =>
+      e_result (run_server_batch (d_optN mx) (get_bool ctx) (d_verdict vb) (map d_env envs) stream)
   | _ => verr
   end.
 
